@@ -369,9 +369,35 @@ def handleC41 (op : Op) (o : Json) : Except String Verdict := do
       return specfalse (pre ++ c) s!"{describe op}: boards that differ afterwards: {changed}"
     | none => return .ok
 
+/-- C36, import update: the new text parses, is formatter-stable, no import of the old path is left, and it compiles —
+    to the SAME diagram when the import was renamed (old and new file have the same content) -/
+def handleImport (i o : Json) : Except String Verdict := do
+  let oc ← getStr o "outcome"
+  let path ← getStr i "path"
+  let newPath := optStr i "newPath"
+  let what := s!"UpdateImport path={path} newPath={newPath}"
+  if oc == "precompile-error" then return .skip "precompile-error"
+  if oc == "panic" then return specfalse "update-import-panics" s!"{what}: {(optStr o "err").getD ""}"
+  if oc == "err" then return specfalse "update-import-refused" s!"{what}: {(optStr o "err").getD ""}"
+  if let some e := optStr o "reparseErr" then return specfalse "import-new-text-does-not-parse" s!"{what}: {e}"
+  let t ← getStr o "newText"
+  let f ← getStr o "fmtText"
+  if t != f then return specfalse "import-formatter-changes-new-text" what
+  let rem ← getStrs o "imports"
+  let isDir := path.endsWith "/"
+  if rem.any (fun p => if isDir then p.startsWith path else p == path) then
+    return specfalse "import-old-path-left" s!"{what}: {rem}"
+  if let some e := optStr o "recompileErr" then return specfalse "import-new-text-does-not-compile" s!"{what}: {e}"
+  if newPath.isSome then
+    let before ← decBoards o "before"
+    let after ← decBoards o "after"
+    if !sameBoards before after then return specfalse "import-rename-changes-diagram" what
+  return .ok
+
 def handleEdit (prop : String) (j : Json) : Except String Verdict := do
   let k ← getStr j "k"
   if k == "evolve" then return .skip "evolve"
+  if k == "import" then return ← handleImport (← getObj j "in") (← getObj j "out")
   let i ← getObj j "in"
   let o ← getObj j "out"
   let op0 ← decOp (← getObj i "op")
